@@ -267,6 +267,13 @@ def float_items(rng, pattern):
             m = np.eye(d, dtype=complex); m[0, 1] = -eps; m[1, 0] = eps
         else:
             m = nr.normal(size=(d, d)) + 1j * nr.normal(size=(d, d))
+        # a later gate on the same qubits that ALMOST undoes an earlier one (Rz(t) ... Rz(-t + eps)): the product is near, not equal to, the identity
+        prev = [pm for pm, pq in items if list(pq) == list(q) and pm.shape == (d, d)]
+        if prev and nr.random() < 0.35:
+            try:
+                m = np.linalg.inv(prev[-1]) @ (np.eye(d) + eps * np.diag(1j * np.arange(1, d + 1)))
+            except np.linalg.LinAlgError:
+                pass
         items.append([m, list(q)])
     return items
 
